@@ -515,6 +515,13 @@ func (c *normCtx) tryExtract(value ast.Value, expected Input) (ast.Value, bool) 
 		// downstream error against the original literal.
 		return value, false
 	}
+	if ok, _ := isValidLiteralValue(expected, value); !ok {
+		// A composite literal (list, input object) coerces to a non-nil value
+		// even when some part of it is invalid. Leave it in place so that
+		// validation reports it against the original literal, exactly as it
+		// does without normalization.
+		return value, false
+	}
 	literalKey := fmt.Sprintf("%v\x00%v", expected, printer.Print(value))
 	if name, ok := c.extracted[literalKey]; ok {
 		return ast.NewVariable(&ast.Variable{Name: ast.NewName(&ast.Name{Value: name})}), true
